@@ -40,11 +40,12 @@ const (
 	defNoFunds
 	defNamedByOnChainConflicts
 	defBlockedCosigner
+	defRepeatedConflicts
 	numDefects
 )
 
 var defectNames = [...]string{"valid", "expired", "valid-until-too-far", "already-on-chain", "bad-witness", "fee-one-short",
-	"highpriority-without-committee", "notvalidbefore-in-future", "sender-cannot-pay", "named-by-on-chain-conflicts", "cosigned-by-blocked-account"}
+	"highpriority-without-committee", "notvalidbefore-in-future", "sender-cannot-pay", "named-by-on-chain-conflicts", "cosigned-by-blocked-account", "conflicts-hash-named-twice"}
 
 // simpleTransfer builds an unsigned GAS transfer from account a.
 func (s *netSim) simpleTransfer(a neotest.SingleSigner, to util.Uint160, amount int64) *transaction.Transaction {
@@ -190,6 +191,21 @@ func (s *netSim) clientTx(t NetTx) {
 		sign()
 	case defNoFunds:
 		tx.SystemFee = 900_000_000_00000000
+		sign()
+	case defRepeatedConflicts:
+		// 2-4 Conflicts attributes, one hash named twice (first and second, second and third, first and last ...)
+		n := 2 + t.Op.X%3
+		i1 := t.Op.Y % n
+		i2 := (i1 + 1 + (t.Op.Y/4)%(n-1)) % n
+		for i := 0; i < n; i++ {
+			h := util.Uint256{0xc0, byte(t.Op.N), byte(i)}
+			if i == i2 {
+				h = util.Uint256{0xc0, byte(t.Op.N), byte(i1)}
+			}
+			tx.Attributes = append(tx.Attributes, transaction.Attribute{Type: transaction.ConflictsT, Value: &transaction.Conflicts{Hash: h}})
+		}
+		tx.NetworkFee = 0
+		neotest.AddNetworkFee(r.P.tb, bc, tx, a)
 		sign()
 	default:
 		return
